@@ -30,6 +30,9 @@ def run(ctx):
     nr = n // 3
     progs += [T.gen_rand_program(rnd, n + i) for i in range(nr)]
     n += nr
+    nt = n // 5
+    progs += [T.gen_tie_program(rnd, n + i) for i in range(nt)]
+    n += nt
     # S->C: the bounded program space of TimeModel, enumerated by TLC itself
     sp = spec_programs(ctx, 'TimeModelExport_thorough.cfg' if thorough else 'TimeModelExport.cfg')
     for k, p in enumerate(sp):
